@@ -12,7 +12,7 @@ RULE = (
     "Exhaustive over interface topologies: every ordered assignment of (role in operand 1, role in operand 2) in "
     "{in,out,absent}^2 \\ {(absent,absent)} to n variables, n<=5 in quick (37448 topologies), n<=6 in thorough (299592); "
     "x 5 mention patterns (empty; maximal; assumptions avoiding the other side's outputs; one-sided) x every "
-    "vars_to_keep / additional_inputs from {none, each single variable, all legal} for compose and quotient, plus merge; "
+    "vars_to_keep / additional_inputs from {none, each single variable, all legal} for compose and quotient, plus merge, plus refines / <= (rejected iff the interfaces differ as sets); "
     "symbolic contents under the always-succeed environment, so that every meaningful request must be accepted. "
     "One-contract family: every role assignment of <=4 variables x every (source,target) over names+fresh+absent for "
     "rename, copy, and every ill-formed constructor argument class. Oracle: an independent set-algebra reference of the "
@@ -21,7 +21,7 @@ RULE = (
     "raise IncompatibleArgsError. Non-trivial = a request that was accepted and returned a contract with a non-empty "
     "interface (distinct by construction)."
 )
-REQUIRED = ["accepted", "rejected", "rename:ok", "rename:rejected", "ctor:rejected", "copy:ok"]
+REQUIRED = ["accepted", "rejected", "compared", "refines-rejected", "rename:ok", "rename:rejected", "ctor:rejected", "copy:ok"]
 PAIRS = [p for p in itertools.product(SA.ROLES, repeat=2) if p != ("-", "-")]
 
 
@@ -105,6 +105,27 @@ def _two(case):
             _judge("quotient", SA.ref_quotient(s1, s2, add), outcome, res, {"op": "quotient", "pat": pat, "arg": add}, agg)
         env, outcome, res, c1, c2 = SA.run("merge", s1, s2, [])
         _judge("merge", SA.ref_merge(s1, s2), outcome, res, {"op": "merge", "pat": pat}, agg)
+        if pat in (0, 1):
+            # refinement across different interfaces has no meaning; equal interfaces (as sets) must be compared
+            same = set(s1["i"]) == set(s2["i"]) and set(s1["o"]) == set(s2["o"])
+            for opname, f in (("refines", lambda a, b: a.refines(b)), ("<=", lambda a, b: a <= b)):
+                SA.ENV = SA.Env()
+                agg["evaluations"] += 1
+                sub = {"op": opname, "pat": pat}
+                try:
+                    k1, k2 = SA.mk_contract(s1), SA.mk_contract(s2)
+                    r = f(k1, k2)
+                    agg["outcomes"]["compared"] += 1
+                    if not same:
+                        agg["violations"].append({"sub": sub, "what": "%s compared contracts with different interfaces (returned %r)" % (opname, r)})
+                except IncompatibleArgsError:
+                    agg["outcomes"]["refines-rejected"] += 1
+                    if same:
+                        agg["violations"].append({"sub": sub, "what": "%s rejected contracts with equal interfaces" % opname})
+                except Exception as e:  # noqa
+                    agg["violations"].append({"sub": sub, "what": "%s raised %s" % (opname, type(e).__name__)})
+                finally:
+                    SA.ENV = None
     agg["sample"] = [{"roles": case["roles"], "requests": agg["evaluations"]}]
     return agg
 
